@@ -17,6 +17,8 @@ META = {
               '(they are overwritten by constants first) — so garbage, including NaN/inf, cannot propagate — at both entry points',
         'R3': 'filter dominance: at each of the three face-producing sites a face record is created only if vector_is_valid(normal of the SAME plane) holds',
         'R4': 'unit thickness tables (C02.R1)',
+        'R5': 'the 2D (1D) periodic start box is the slab version of the 3D one (C02.R3): on every active axis the walls lie strictly beyond A_c - W_c/2 and A_c + 3W_c/2 measured with '
+              'the width of THAT axis; inactive axes keep the unit-thickness walls',
     },
     'explanation': 'Low-dimensional handling is spread over six mechanisms; each is specialised per dimensionality by constant folding and the per-axis activity bits are compared '
                    'with c < d (R1). R2 is a kill analysis on the abstractly evaluated code: inactive input components never reach an operation. R3 is read off the face decision tables. '
@@ -33,7 +35,7 @@ def run(ctx):
     for cfg in ctx.configs_used:
         F = ctx.facts(cfg)
         sfx = '' if cfg == 'default' else '@' + cfg
-        for fn in (r1, r2, r3, r4):
+        for fn in (r1, r2, r3, r4, r5):
             rule = 'C08.' + fn.__name__.upper()
             ctx.guarded(rule, 'evaluate' + sfx, lambda: fn(ctx, F, rule, sfx))
 
@@ -202,3 +204,7 @@ def r3(ctx, F, rule, sfx):
 
 def r4(ctx, F, rule, sfx):
     c02.r1(ctx, F, rule, sfx)
+
+
+def r5(ctx, F, rule, sfx):
+    c02.r3(ctx, F, rule, sfx)
